@@ -2,7 +2,9 @@
 # tools/mut.sh <file-relative-to-xrspatial> <python-regex-old> <new> <PROP> [shards]
 # apply one textual mutation to the scratch copy /dev/shm/xrs_m, run the check against it, restore.
 set -u
-F=/dev/shm/xrs_m/xrspatial/$1
+M=${MUT_DIR:-/dev/shm/xrs_m}
+[ -d $M/xrspatial ] || { mkdir -p $M; cp -r /repo/xrspatial $M/; }
+F=$M/xrspatial/$1
 cp /repo/xrspatial/$1 $F
 /venv/bin/python - "$F" "$2" "$3" <<'PY'
 import sys
@@ -17,5 +19,5 @@ PY
 [ $? -eq 9 ] && exit 9
 cd /verif
 if [ -n "${5:-}" ]; then SH="--shards $5"; else SH="--no-evidence"; fi
-VERIF_REPO=/dev/shm/xrs_m ./check $4 --tier quick $SH 2>&1 | grep -E "^VIOLATION|bucket=|^C[0-9]+ tier|HARNESS" | head -8
+VERIF_REPO=$M ./check $4 --tier quick $SH 2>&1 | grep -E "^VIOLATION|bucket=|^C[0-9]+ tier|HARNESS" | head -8
 cp /repo/xrspatial/$1 $F
